@@ -13,6 +13,7 @@ from pbt.core import Failure
 ID = "C13"
 RULE = ("Lists of 1..N sequences of length 0..M over ACGT, ACTG, ACUG (bit-packed path), ACGTn and amino acids (generic path), and ASCII for "
         "match_string; always including the possibility of empty rows, rows of length w-1, w and w+1 and a short last row; total letters >= w; "
+        "histories of 2..4 calls in one process over alphabets of the same size with the same k (so label tables or lookup tables left by one call cannot serve another alphabet); "
         "in a third of the sampled cases the rows are handed over as a row selection out of a larger, differently ordered collection (a non-contiguous view). "
         "Window / k from 1 to 31 for four-letter alphabets and up to the largest k with |A|^k < 2^63 otherwise; minimizer windows w >= k. "
         "Exhaustive core: every list of up to 2 rows of length 0..4 (3 rows of length 0..3) over a two-letter sub-alphabet with every w <= 5; Hypothesis beyond. "
@@ -25,7 +26,7 @@ ASSUMPTIONS = [
     "count_kmers is generated with k <= 5 (its label table has |A|^k entries).",
 ]
 REQUIRED_CLASSES = ["w=1", "w-equals-row-length", "w-one-more-than-row", "row-shorter-than-w", "empty-row", "bit-packed", "generic", "k>=16",
-                    "minimizers", "match_string", "motif", "count", "view-input"]
+                    "minimizers", "match_string", "motif", "count", "view-input", "call-history", "history-same-size-other-alphabet"]
 BOUNDS = {"quick": "exhaustive core (<=3 rows, length <=4, two letters, w<=5, all functions); 400 sampled per function family",
           "thorough": "exhaustive core; 20000 sampled"}
 BUDGET_S = {"quick": 200, "thorough": 1500}
@@ -54,6 +55,14 @@ def windows(row, w):
 
 
 def classify(case):
+    if case["fn"] == "history":
+        steps = case["steps"]
+        cl = ["call-history"]
+        for i, a in enumerate(steps):
+            for b in steps[i + 1:]:
+                if a["fn"] == b["fn"] and a.get("k") == b.get("k") and a["alpha"] != b["alpha"] and len(ALPHA[a["alpha"]]) == len(ALPHA[b["alpha"]]):
+                    cl.append("history-same-size-other-alphabet")
+        return len(steps) >= 2, sorted(set(cl))
     rows, w = case["rows"], case["w"]
     cl = [case["fn"]]
     if case.get("view"):
@@ -98,6 +107,17 @@ def check(case, stats=None):
     import bionumpy as bnp
     from bionumpy.encodings.kmer_encodings import KmerEncoding
     from bionumpy.sequence.position_weight_matrix import PWM
+    if case["fn"] == "history":
+        # several calls in one process: what an earlier call leaves behind (label tables, lookup caches) must not change a later one
+        for i, step in enumerate(case["steps"]):
+            fails = check(step, stats)
+            if fails:
+                f = fails[0]
+                detail = dict(f.detail) if isinstance(f.detail, dict) else {"detail": f.detail}
+                detail["step"] = i
+                detail["earlier_calls"] = [{"fn": s_["fn"], "alpha": s_.get("alpha"), "k": s_.get("k"), "rows": s_["rows"]} for s_ in case["steps"][:i]]
+                return [Failure(f.bucket + ("-after-earlier-calls" if i else ""), detail)]
+        return []
     fn, rows, w = case["fn"], case["rows"], case["w"]
     try:
         if fn in ("kmers", "minimizers", "count"):
@@ -254,6 +274,28 @@ def sampled_case(draw, fn, max_rows, max_len):
     return case
 
 
+@st.composite
+def history_case(draw, max_rows, max_len):
+    """2..4 calls of the k-mer functions in a row, over alphabets of the same size and with the same k."""
+    group = draw(st.sampled_from([["ACGT", "ACTG", "ACUG"], ["ACGT", "ACTG", "ACUG"], ["ACGTn", "amino", "ACGT"]]))
+    k = draw(st.integers(1, 3))
+    steps = []
+    for _ in range(draw(st.integers(2, 4))):
+        fn = draw(st.sampled_from(["count", "count", "kmers", "minimizers"]))
+        alpha = draw(st.sampled_from(group))
+        chars = ALPHA[alpha]
+        w = k if fn != "minimizers" else k + draw(st.integers(0, 2))
+        rows = [draw(st.text(alphabet=chars, min_size=0, max_size=max_len)) for _ in range(draw(st.integers(1, max_rows)))]
+        rows.append(draw(st.text(alphabet=chars, min_size=w, max_size=w + 3)))
+        steps.append({"fn": fn, "alpha": alpha, "rows": rows, "w": w, "k": k if not (fn == "count" and len(chars) > 5) else min(k, 2)})
+    return {"fn": "history", "steps": steps}
+
+
+def task_history(stats, known_open, n, seed, max_rows, max_len):
+    import sys
+    core.run_hypothesis(sys.modules[__name__], history_case(max_rows, max_len), stats, known_open, max_examples=n, seed=seed)
+
+
 def task_sampled(stats, known_open, fn, n, seed, max_rows, max_len):
     import sys
     core.run_hypothesis(sys.modules[__name__], sampled_case(fn, max_rows, max_len), stats, known_open, max_examples=n, seed=seed)
@@ -268,4 +310,6 @@ def tasks(tier, seed):
     for i, fn in enumerate(FNS):
         for j in range(reps):
             out.append(("task_sampled", dict(fn=fn, n=n, seed=seed * 1000 + i * 10 + j, max_rows=5 if tier == "quick" else 10, max_len=12 if tier == "quick" else 60)))
+    for j in range(2 if tier == "quick" else 8):
+        out.append(("task_history", dict(n=n, seed=seed * 1000 + 700 + j, max_rows=3, max_len=8)))
     return out
